@@ -189,7 +189,9 @@ func ItemCollectionDeduplication(recCols ...*ItemCollection) ItemCollection {
 
 		sort.Sort(sort.Reverse(sort.IntSlice(toRemove)))
 		for _, idx := range toRemove {
-			*recCol = append((*recCol)[:idx], (*recCol)[idx+1:]...)
+			// NOTE(marius): the shortened list gets its own storage: the backing array may be shared with one of the
+			// other lists (a caller setting To and CC from the same slice), which must keep the entries it has
+			*recCol = append((*recCol)[:idx:idx], (*recCol)[idx+1:]...)
 		}
 	}
 	return rec
